@@ -25,7 +25,7 @@ def _bound(ctx, call, func, clsname):
     return q.bind_args(ctx, call, func, init) or {}
 
 
-@rule('C10.a', ['C10', 'C11', 'C16'], floor=12)
+@rule('C10.a', ['C10', 'C11', 'C16', 'C02', 'C06'], floor={'*': 12, 'C02': 1, 'C06': 1})
 def wiring_table(ctx):
     """Each limit is fed by its own TransferConfig field: request executor <-
     (max_request_queue_size, max_request_concurrency), submission executor <-
@@ -35,6 +35,16 @@ def wiring_table(ctx):
     BoundedExecutor passes max_num_threads as max_workers and max_size to its
     TaskSemaphore; TransferConfig stores each parameter under its own name."""
     f = ctx.func('manager.TransferManager.__init__')
+    if ctx.prop in ('C02', 'C06'):
+        # for the download properties only the part they rest on: the IO stage is ONE thread fed in FIFO order, which is what
+        # makes writes to a stream come out in submission order and puts the final rename behind every write of the transfer
+        call = _ctor_assigned_to(ctx, f, '_io_executor')
+        ctx.need(call is not None, 'self._io_executor is no longer constructed in TransferManager.__init__')
+        b = _bound(ctx, call, f, 'futures.BoundedExecutor')
+        mt = b.get('max_num_threads')
+        ctx.ob(f, '_io_executor.max_num_threads <- literal 1', isinstance(mt, ast.Constant) and mt.value == 1,
+               f'the IO executor must have exactly one thread (ordered writes, rename after all writes), found {norm(mt)}')
+        return
     table = [('_request_executor', 'max_request_queue_size', 'max_request_concurrency'),
              ('_submission_executor', 'max_submission_queue_size', 'max_submission_concurrency'),
              ('_io_executor', 'max_io_queue_size', None)]
@@ -48,11 +58,11 @@ def wiring_table(ctx):
                f'{short(call, 60)} is not a BoundedExecutor: the stage would be unbounded')
         b = _bound(ctx, call, f, 'futures.BoundedExecutor')
         ms = b.get('max_size')
-        ctx.ob(f, f'{attr}.max_size <- config.{qfield}', ms is not None and norm(ms) == f'self._config.{qfield}',
+        ctx.ob(f, f'{attr}.max_size <- config.{qfield}', ms is not None and q.self_alias_text(f, ms) == f'self._config.{qfield}',
                f'queue bound of {attr} must be config.{qfield}, found {norm(ms)}')
         mt = b.get('max_num_threads')
         if cfield:
-            ctx.ob(f, f'{attr}.max_num_threads <- config.{cfield}', mt is not None and norm(mt) == f'self._config.{cfield}',
+            ctx.ob(f, f'{attr}.max_num_threads <- config.{cfield}', mt is not None and q.self_alias_text(f, mt) == f'self._config.{cfield}',
                    f'thread count of {attr} must be config.{cfield}, found {norm(mt)}')
         else:
             ctx.ob(f, f'{attr}.max_num_threads <- literal 1', isinstance(mt, ast.Constant) and mt.value == 1,
@@ -71,7 +81,7 @@ def wiring_table(ctx):
                 if ok:
                     rr = ctx.r.resolve(v, f, _count=False)
                     exact = rr.recv and [c.qualname for c in rr.recv] == [cls]
-                    ok = bool(exact) and len(v.args) + len(v.keywords) == 1 and norm((v.args + [k.value for k in v.keywords])[0]) == f'self._config.{field}'
+                    ok = bool(exact) and len(v.args) + len(v.keywords) == 1 and q.self_alias_text(f, (v.args + [k.value for k in v.keywords])[0]) == f'self._config.{field}'
                 ctx.ob(f, f'{tag} <- {cls.split(".")[1]}(config.{field})', ok, f'found {short(v, 70) if v is not None else "nothing"}')
         else:
             ts = b.get('tag_semaphores')
@@ -156,7 +166,7 @@ def task_ops(ctx):
     return out
 
 
-@rule('C10.b', ['C10', 'C07'], floor=20)
+@rule('C10.b', ['C10', 'C07', 'C04'], floor=20)
 def stage_discipline(ctx):
     """Every data operation is issued only from the _main of a task class that is
     submitted only to the request executor; head_object only from a _submit of a task
